@@ -363,7 +363,8 @@ def replay_concrete(modname, world, assignment, label):
     return res["reproduced"], res["failures"], None
 
 
-def main(mod, argv=None):
+def main(mod, argv=None, collect=None):
+    """collect: optional dict; when given, the evidence is stored in collect['evidence'] and not written."""
     import argparse
 
     ap = argparse.ArgumentParser()
@@ -373,6 +374,7 @@ def main(mod, argv=None):
     ap.add_argument("--only", help="substring filter on world names (debugging)")
     ap.add_argument("--no-evidence", action="store_true")
     a = ap.parse_args(argv)
+    a.collect = collect
     pid = mod.ID
     seed = int(os.environ.get("VERIF_SEED", "0"))
     if a.replay:
@@ -539,7 +541,9 @@ def report(mod, tier, seed, worlds, results, t0, a):
         "wall_s": round(wall, 2),
         "violations": len(reported),
     }
-    if not a.no_evidence and not a.only:
+    if getattr(a, "collect", None) is not None:
+        a.collect["evidence"] = ev
+    elif not a.no_evidence and not a.only:
         os.makedirs(os.path.join(VERIF, "evidence"), exist_ok=True)
         with open(os.path.join(VERIF, "evidence", f"{pid}.json"), "w") as f:
             json.dump(ev, f, indent=1, default=str)
